@@ -367,6 +367,8 @@ def run(rep, repo, tier):
               got='%d solves' % len(s0), want='1', construct='no-criterion solve count')
     from .c14 import check_status_plumbing
     check_status_plumbing(rep, repo, rule='C02.R6')
+    from ..defined import check_defined
+    check_defined(rep, repo, 'C02.R7', [repo.method('Solver', '__init__'), repo.method('Solver', 'solve'), repo.method('Solver', 'get_results_short'), repo.method('Solver', 'get_results_long')], 'solver path')
     # R4 tables
     from .c16 import check_tables
     check_tables(rep, repo, 'C02.R4')
